@@ -498,6 +498,9 @@ func executorFindInsertionPoints(ctx *ExecutionContext, resultLock *sync.Mutex, 
 			// if the root value is a list
 			if rootList, ok := rootValue.([]interface{}); ok {
 				for i := range oldBranch {
+					if i >= len(rootList) {
+						return nil, fmt.Errorf("Root value of result chunk has no item %v. Point: %v", i, point)
+					}
 					entry, ok := rootList[i].(map[string]interface{})
 					if !ok {
 						return nil, errors.New("Item in root list isn't a map")
